@@ -138,3 +138,112 @@ def rule_R22_boundaries(ctx, rep, config="c-lib"):
                               "a member of the neighbouring class" % {"le": "<=", "gt": ">"}[pr], where=c.where(), witness=[c.where()])
             rep.cover(p, [f.name])
     rep.floor("R22-bounds", "comparisons of an index with a class boundary", n, 15)
+
+
+def rule_R22_cache_key(ctx, rep, config="c-lib"):
+    rep.rule("R22-key", "build_pl looks a transition up in the goto cache under the lookahead terminal it builds the set with: the value stored into the key's `lookahead' "
+                        "member and the third argument of build_new_set are the same value (a key filled before the lookahead of the current token is computed carries "
+                        "the previous token's lookahead)")
+    p = ctx.prog(config)
+    f = p.fn("build_pl")
+    rep.cover(p, [f.name])
+    keys = []
+    for s_ in f.all_insts():
+        if s_.op == "store" and resolve_addr(f, s_.ops[1]).last_field() == "set_term_lookahead.lookahead":
+            pa = resolve_addr(f, s_.ops[1])
+            h = f.inst(strip_casts(f, pa.root[1])) if pa.root[0] == "val" else None
+            # the key object being looked up (top of the object stack), not the table entry found
+            if h is not None and not (h.op == "load" and resolve_addr(f, h.ops[0]).root[0] == "val"):
+                keys.append(s_)
+    builds = [c for c in f.calls() if c.callee == "build_new_set"]
+    if not keys or len(builds) != 1:
+        raise AnalysisBroken("R22-key: key store / build_new_set call of build_pl not found (%d, %d)" % (len(keys), len(builds)))
+    b = builds[0]
+    bv = strip_int_casts(f, b.args[2])
+    bad = [k for k in keys if strip_int_casts(f, k.ops[0]) != bv]
+    good = [k for k in keys if strip_int_casts(f, k.ops[0]) == bv]
+    if good:
+        rep.ok("R22-key", "build_pl/key-lookahead-is-build-lookahead", sample={"key": good[0].where(), "build": b.where()})
+    else:
+        rep.violation("R22-key", "build_pl/key-lookahead-is-build-lookahead", "the goto cache is searched (and filled) under another lookahead value than the one the set is built "
+                      "with: a set pruned for one following token is reused before another one -- sentences rejected at lookahead >= 1", where=bad[0].where(), witness=[bad[0].where(), b.where()])
+
+
+def rule_R22_bit_tests(ctx, rep, config="c-lib"):
+    rep.rule("R22-bits", "a test of a bit in a terminal set word yields 0 / 1 from the whole word: no 64-bit `word & mask' is narrowed to int (terminals whose bit lies in the "
+                         "upper half would always test as absent)")
+    p = ctx.prog(config)
+    n = 0
+    for f in p.m.defined():
+        if f.module and not f.module.startswith("yaep."):
+            continue
+        if not f.name.startswith("term_set_"):
+            continue
+        rep.cover(p, [f.name])
+        for i in f.all_insts():
+            if i.op != "trunc":
+                continue
+            v = f.inst(strip_casts(f, i.ops[0]))
+            if v is not None and v.op == "and" and v.ty == "i64" and not any(const_int(o) is not None for o in v.ops):
+                n += 1
+                rep.violation("R22-bits", "%s/narrowed-bit-test" % f.name, "%s narrows `word & mask' from 64 to %s bits: for a terminal number >= 32 (mod 64) the bit is lost and the "
+                              "terminal is reported absent from every lookahead / FIRST / FOLLOW set" % (f.name, i.ty), where=i.where(), witness=[i.where()])
+    t = p.fn("term_set_test")
+    rets = [r for r in t.all_insts() if r.op == "ret" and r.ops]
+    okr = False
+    for r in rets:
+        v = t.inst(strip_int_casts(t, r.ops[0]))
+        if v is not None and v.op == "icmp":
+            okr = True
+    if n == 0:
+        if okr:
+            rep.ok("R22-bits", "term_set_test/truth-value", sample={"function": "term_set_test"})
+        else:
+            raise AnalysisBroken("R22-bits: term_set_test does not return a comparison result")
+
+
+def rule_R22_phases(ctx, rep, config="c-lib"):
+    rep.rule("R22-phases", "expand_new_start_set: (1) the reduce vectors of the completed situations are formed in a loop of their own, after the loop that predicts "
+                           "situations (the vector of a (core, symbol) pair doubles as the `symbol already predicted' mark, so a reduce entry made early suppresses the "
+                           "prediction); (2) the situation behind a nullable symbol is added for every initial situation before such a symbol -- the addition is not "
+                           "conditioned on the length of the rule")
+    p = ctx.prog(config)
+    f = p.fn("expand_new_start_set")
+    rep.cover(p, [f.name])
+    adds = [c for c in f.calls() if c.callee == "set_new_add_initial_sit"]
+    reds = [c for c in f.calls() if c.callee and "reduce" in c.callee and "add" in c.callee]
+    if not adds or not reds:
+        raise AnalysisBroken("R22-phases: prediction / reduce-vector calls of expand_new_start_set not found (%d, %d)" % (len(adds), len(reds)))
+    pred_loops = [L for L in f.loops() if any(a.block.name in L["body"] for a in adds)]
+    mixed = [r for r in reds if any(r.block.name in L["body"] for L in pred_loops)]
+    if mixed:
+        rep.violation("R22-phases", "expand_new_start_set/reduce-vectors-after-prediction", "reduce vectors are formed inside the loop that predicts situations: a completed "
+                      "situation met before the first situation with the dot before the same nonterminal creates the pair's vector first, and the nonterminal is then "
+                      "taken for already predicted -- its initial situations are never added", where=mixed[0].where(), witness=[mixed[0].where()])
+    else:
+        rep.ok("R22-phases", "expand_new_start_set/reduce-vectors-after-prediction", sample={"reduce_entries": [r.where() for r in reds][:2]})
+    # the nullable skip
+    skip = None
+    for a in adds:
+        ai = f.inst(strip_casts(f, a.args[0]))
+        if ai is not None and ai.is_call() and ai.callee == "sit_create" and const_int(ai.args[1]) is None:
+            skip = a
+    if skip is None:
+        raise AnalysisBroken("R22-phases: the addition of the situation behind a nullable symbol was not found")
+    extra = []
+    for (c, pol) in _controlling_conditions(f, skip.block.name):
+        for o in c.ops:
+            lp = loaded_from(f, o)
+            if lp is not None and lp.last_field() == "rule.rhs_len" and c.block.name in [bn for L in pred_loops for bn in L["body"]]:
+                # the loop's own structure `pos == rhs_len' (completed situation: nothing behind the dot) is a different test: it excludes pos itself, not pos + 1
+                other = c.ops[0] if o is c.ops[1] else c.ops[1]
+                from ..expr import lin as _lin
+                ol = _lin(f, other, 0, 1)
+                if ol.c != 0:
+                    extra.append(c)
+    if extra:
+        rep.violation("R22-phases", "expand_new_start_set/nullable-skip-unconditional", "the situation behind a nullable symbol is added only when the rule has more symbols "
+                      "behind it: a completed situation reached by skipping the nullable symbol is missing from the reduce vectors, so the translation pass sees one "
+                      "derivation where there are two (ambiguity flag not set)", where=extra[0].where(), witness=[extra[0].where(), skip.where()])
+    else:
+        rep.ok("R22-phases", "expand_new_start_set/nullable-skip-unconditional", sample={"addition": skip.where()})
